@@ -413,9 +413,34 @@ def run_check(chk, tier, seed, replay=None):
         nonlocal evals
         cases = list(cases)
         impl_obs = []
+        limit = getattr(chk, 'CASE_TIMEOUT', None)
         for c in cases:
             try:
-                impl_obs.append(chk.run_impl(c))
+                if limit:
+                    # cases that drive real threads / sockets run under a watchdog: a wedged implementation must become a finding,
+                    # not a check that never ends
+                    box = {}
+
+                    def target(c=c, box=box):
+                        try:
+                            box['v'] = chk.run_impl(c)
+                        except BaseException as e:      # noqa
+                            box['e'] = e
+                            box['tb'] = traceback.format_exc()[-1500:]
+                    import threading
+                    th = threading.Thread(target=target, daemon=True)
+                    th.start()
+                    th.join(limit)
+                    if th.is_alive():
+                        impl_obs.append({'case_hangs': limit})
+                    elif 'e' in box:
+                        if isinstance(box['e'], Infra):
+                            raise box['e']
+                        impl_obs.append({'harness_exception': repr(box['e']), 'tb': box['tb']})
+                    else:
+                        impl_obs.append(box.get('v'))
+                else:
+                    impl_obs.append(chk.run_impl(c))
             except Infra:
                 raise
             except Exception as e:
@@ -436,6 +461,9 @@ def run_check(chk, tier, seed, replay=None):
                 infra_notes.append('driver: %s' % e)
         for c, io, mo in zip(cases, impl_obs, model):
             evals += 1
+            if isinstance(io, dict) and 'case_hangs' in io:
+                violations.append(Failure('oracle', pid + ':implementation-hangs', 'the implementation did not finish this case within %ss (a call or the session is wedged)' % io['case_hangs'], c, io))
+                continue
             if isinstance(io, dict) and 'harness_exception' in io:
                 violations.append(Failure('oracle', pid + ':harness-exception', 'harness could not drive the implementation: ' + io['harness_exception'], c, io))
                 continue
